@@ -90,7 +90,7 @@ class Watch:
     """Run library calls under the work meter; an abort marks the case inconclusive for
     every property except C13 (which owns that verdict)."""
 
-    def __init__(self, res: Res, ref_n: int, fingerprints=False, scale=0.05):
+    def __init__(self, res: Res, ref_n: int, fingerprints=False, scale=0.25):
         from .. import bb
 
         self.bb = bb
